@@ -205,12 +205,12 @@ func checkC12(r *Result) {
 	// ---- TYPESTATE census
 	got := constFieldStores(P, "x/dispute/types.Dispute.DisputeStatus")
 	want := map[string][]string{
-		"(x/dispute/keeper.Keeper).SetNewDispute":         {"Prevote", "Voting"},
-		"(x/dispute/keeper.msgServer).AddFeeToDispute":    {"Voting"},
-		"x/dispute.CheckOpenDisputesForExpiration":        {"Failed"},
-		"(x/dispute/keeper.Keeper).TallyVote":             {"Resolved", "Resolved", "Resolved", "Unresolved"},
-		"(x/dispute/keeper.Keeper).ExecuteVote":           {"Resolved"},
-		"(x/dispute/keeper.Keeper).AddDisputeRound":       {"Voting"},
+		"(x/dispute/keeper.Keeper).SetNewDispute":      {"Prevote", "Voting"},
+		"(x/dispute/keeper.msgServer).AddFeeToDispute": {"Voting"},
+		"x/dispute.CheckOpenDisputesForExpiration":     {"Failed"},
+		"(x/dispute/keeper.Keeper).TallyVote":          {"Resolved", "Resolved", "Resolved", "Unresolved"},
+		"(x/dispute/keeper.Keeper).ExecuteVote":        {"Resolved"},
+		"(x/dispute/keeper.Keeper).AddDisputeRound":    {"Voting"},
 	}
 	var fnames []string
 	for f := range got {
@@ -256,7 +256,9 @@ func checkC12(r *Result) {
 		}
 	}
 	storeStatus := func(name string) func(in ssa.Instruction) bool {
-		return func(in ssa.Instruction) bool { return storesConstToField(in, "x/dispute/types.Dispute.DisputeStatus", st(name)) }
+		return func(in ssa.Instruction) bool {
+			return storesConstToField(in, "x/dispute/types.Dispute.DisputeStatus", st(name))
+		}
 	}
 	eachStore := func(fn *ssa.Function, match func(ssa.Instruction) bool, f func(in ssa.Instruction)) int {
 		n := 0
@@ -302,7 +304,9 @@ func checkC12(r *Result) {
 	// AddDisputeRound: Unresolved -> Voting with fresh id
 	if adr := need("(x/dispute/keeper.Keeper).AddDisputeRound"); adr != nil {
 		ps := AnalyzePaths(adr, []Atom{{Name: "unresolved", Cond: statusIs("Unresolved")},
-			{Name: "open", Cond: func(rel *Term) (bool, bool) { return strings.HasPrefix(rel.Op, "field:x/dispute/types.Dispute.Open"), true }},
+			{Name: "open", Cond: func(rel *Term) (bool, bool) {
+				return strings.HasPrefix(rel.Op, "field:x/dispute/types.Dispute.Open"), true
+			}},
 			{Name: "expired", Cond: func(rel *Term) (bool, bool) {
 				if rel.Op == "<" && len(rel.Args) == 2 && strings.HasPrefix(rel.Args[0].Op, "field:x/dispute/types.Dispute.DisputeEndTime") && rel.Args[1].Has("call:(github.com/cosmos/cosmos-sdk/types.Context).BlockTime") {
 					return true, true
